@@ -909,6 +909,22 @@ def run_for(ctx, prop):
         # plumbing: which of those functions it calls, with which arguments, under which conditions
         if qual not in explicit and ctx.repo.func(qual).qualname in up_only:
             fa = ctx.fa(qual)
+            # ... unless the whole function still agrees with its reference (with helpers evaluated in place): then its
+            # calls into the anchored code are equivalent too, however they are spelled (a copy of a block replaced by a
+            # call of the function it duplicates adds a call site without changing anything)
+            if not r['nested']:
+                mark = len(ctx.obligations)
+                try:
+                    compare(ctx, f'PLUMB.{short}', fa, r['src'], module=r['module'], normalize=r.get('normalize'),
+                            why='plumbing function agrees with its reference model as a whole (' + r['why'] + ')',
+                            ignore=r.get('ignore'), drop_guards=r.get('drop_guards') or ())
+                    whole_ok = all(ob['status'] == 'discharged' for ob in ctx.obligations[mark:])
+                except Exception:
+                    whole_ok = False
+                if whole_ok:
+                    n += 1
+                    continue
+                del ctx.obligations[mark:]
             compare(ctx, f'PLUMB.{short}', fa, r['src'], module=r['module'], callsites=targets,
                     why='calls into the code this property is anchored in: callee, arguments and conditions (' + r['why'] + ')',
                     drop_guards=r.get('drop_guards') or ())
